@@ -1832,14 +1832,14 @@ func (w *world) stateDigest() uint64 {
 		}
 		d.SortedStrings(xs)
 		rs := []string{}
-		if q := n.router.VerifMgmtQueueLen(); q > 0 {
-			// registrations in progress: which of the queued commands have been carried out so far follows the
-			// order in which the daemon ranged over its maps; only how many are left is canonical
-			rs = append(rs, fmt.Sprintf("installing, %d commands queued", q))
-		} else if n.mgmtFail > 0 || (n.lastFail != 0 && w.now() <= n.lastFail+600*time.Millisecond) {
-			// a command is (or may be) inside its retry loop: which one met the failure follows the same map
-			// order, and the queue is empty while the client sleeps between two attempts
+		if n.mgmtFail > 0 || (n.lastFail != 0 && w.now() <= n.lastFail+600*time.Millisecond) {
+			// a command is (or may be) inside its retry loop: which one met the failure follows the order in which
+			// the daemon ranged over its maps, and so does what is still queued behind it
 			rs = append(rs, "installing, a command is being retried")
+		} else if q := n.router.VerifMgmtQueueLen(); q > 0 {
+			// registrations in progress: which of the queued commands have been carried out so far follows the
+			// same map order; only how many are left is canonical
+			rs = append(rs, fmt.Sprintf("installing, %d commands queued", q))
 		} else {
 			for k, c := range n.routes {
 				rs = append(rs, fmt.Sprintf("%s|%d|%d=%d", k.name, k.face, k.origin, c))
